@@ -432,3 +432,13 @@ func anyJSON(l string) string {
 	b, _ := json.Marshal(x)
 	return string(b)
 }
+
+// BytesOf returns the bytes of a "y:" leaf.
+func BytesOf(v any) ([]byte, bool) {
+	s, ok := v.(string)
+	if !ok || !strings.HasPrefix(s, "y:") {
+		return nil, false
+	}
+	b, err := base64.StdEncoding.DecodeString(s[2:])
+	return b, err == nil
+}
